@@ -1,5 +1,11 @@
 package main
 
+import (
+	"sort"
+
+	"golang.org/x/tools/go/ssa"
+)
+
 // C18 — a query observes the table as of a single instant.
 
 func init() {
@@ -8,6 +14,57 @@ func init() {
 		Explanation: "Decides the structural clause 'the snapshot handed to a scan shares no memory that the ingest path mutates in place, and is taken atomically with the file store': (a) isolation — Tree.Copy stores only fresh containers and fresh sequence bytes into the copy, key/label bytes are never written in place, memstore.copy() uses Tree.Copy of its own tree, rowStore.iterate scans exactly the copy taken in the call; (b) lock regions — file store and memstore copy are captured in one read-held region of rowStore.mx, and ingest applies offset+row in one write-held region (all fields of a point become visible together).",
 		NotDecided:  []string{"behaviour under actual interleavings (timing)", "visibility across the flush swap beyond the lock-region clause"},
 		Assumptions: []string{"sync.RWMutex provides mutual exclusion between the write-held and read-held regions"},
-		Rules:       []func(*Ctx){func(c *Ctx) { ruleIsolation(c, "C18.a") }, func(c *Ctx) { ruleLockRegions(c, "C18.b") }},
+		Rules:       []func(*Ctx){func(c *Ctx) { ruleC18c(c, "C18.c") }, func(c *Ctx) { ruleIsolation(c, "C18.a") }, func(c *Ctx) { ruleLockRegions(c, "C18.b") }},
 	})
+}
+
+// ruleC18c: a snapshot is a copy, and the scan's notion of "now" is fixed.
+func ruleC18c(c *Ctx, rule string) {
+	c.describe(rule, "flow: (1) Tree.Copy returns a freshly allocated tree on every path, never its receiver (an 'empty tree, nothing to copy' shortcut hands the live tree to the scan, which then sees every insert made while it reads the file); (2) the retention cutoff of a scan is read once, before the first row: (*table).truncateBefore — which follows the clock every insert advances — is not called inside a loop or a per-row closure of fileStore.iterate / rowMerger")
+	if cp := c.need(rule, "(*z/bytetree.Tree).Copy"); cp != nil {
+		ok, n := true, 0
+		for _, in := range instrs(cp) {
+			r, isR := in.(*ssa.Return)
+			if !isR {
+				continue
+			}
+			n++
+			for _, leaf := range phiLeaves(r.Results[0]) {
+				if _, isAl := strip(leaf).(*ssa.Alloc); !isAl {
+					ok = false
+				}
+			}
+		}
+		c.check(rule, "Tree.Copy returns a fresh tree on every path", cp.Pos(), ok && n > 0, "every return hands back the tree allocated in Copy", "Tree.Copy can return something other than the tree it allocated (its receiver): the query's snapshot is the live memstore tree")
+	}
+	it := c.need(rule, "(*z.fileStore).iterate")
+	if it == nil {
+		return
+	}
+	scope := map[*ssa.Function]bool{}
+	for _, f := range withHelpers(c.P, it) {
+		scope[f] = true
+	}
+	for _, name := range []string{"z.rowMerger", "z.rowMapper"} {
+		if f := c.P.Func(name); f != nil {
+			for _, g := range withAnon(f) {
+				scope[g] = true
+			}
+		}
+	}
+	n, bad := 0, ""
+	var fns []*ssa.Function
+	for f := range scope {
+		fns = append(fns, f)
+	}
+	sort.Slice(fns, func(i, j int) bool { return fns[i].Pos() < fns[j].Pos() })
+	for _, f := range fns {
+		for _, call := range callsTo(f, "(*z.table).truncateBefore") {
+			n++
+			if f.Parent() != nil || len(loopsContaining(f, call.Block())) > 0 {
+				bad = c.P.Pos(call.Pos())
+			}
+		}
+	}
+	c.check(rule, "a scan reads the retention cutoff once", it.Pos(), bad == "" && n > 0, itoa(n)+" call(s) of truncateBefore, none in a loop or per-row closure", "the retention cutoff is re-read per row (at "+bad+"): an insert that advances the clock while the scan runs changes the cutoff for the rows delivered after it, so one result mixes two instants")
 }
